@@ -919,3 +919,148 @@ t7_cap!(t7_awareness_update_v1, 6, |b| {
     ok
 });
 
+
+// ---------------------------------------------------------------------------------------------
+// T8: "a value that was decoded successfully can be encoded again": decode with the real decoder,
+// then run the real `Encode` impl against the recording Encoder (no heap buffer written at
+// symbolic offsets, which is what made decode-then-encode with EncoderV1 explode).
+// ---------------------------------------------------------------------------------------------
+use crate::c13_model::RecorderN;
+
+#[kani::proof]
+#[kani::unwind(12)]
+#[kani::stub(std::vec::Vec::try_reserve, vec_try_reserve)]
+fn t8_id_range_reencode() {
+    let buf: [u8; 5] = kani::any();
+    let mut full = [0u8; 6];
+    full[0] = 1; // one range
+    let mut i = 0;
+    while i < 5 {
+        full[i + 1] = buf[i];
+        i += 1;
+    }
+    let mut len = 1;
+    while len <= 6 {
+        let mut d = DecoderV1::from(&full[..len]);
+        let r = <hook::IdRanges<()> as Decode>::decode(&mut d);
+        if let Ok(r) = &r {
+            let mut rec: RecorderN<32> = RecorderN::new();
+            r.encode(&mut rec);
+            kani::cover!(rec.n >= 3, "decoded and re-encoded");
+        }
+        std::mem::forget(r);
+        len += 1;
+    }
+    kani::cover!(true, "reach");
+}
+
+fn t8_sticky<const N: usize>(tag: u8) {
+    let buf: [u8; N] = kani::any();
+    let mut full = [0u8; 16];
+    full[0] = tag;
+    let mut i = 0;
+    while i < N {
+        full[i + 1] = buf[i];
+        i += 1;
+    }
+    let r = yrs::StickyIndex::decode_v1(&full[..N + 1]);
+    if let Ok(s) = &r {
+        let mut rec: RecorderN<32> = RecorderN::new();
+        s.encode(&mut rec);
+        kani::cover!(true, "decoded and re-encoded");
+    }
+    std::mem::forget(r);
+    kani::cover!(true, "reach");
+}
+#[kani::proof]
+#[kani::unwind(34)]
+fn t8_sticky_relative_reencode() {
+    t8_sticky::<10>(0)
+}
+#[kani::proof]
+#[kani::unwind(34)]
+fn t8_sticky_nested_reencode() {
+    t8_sticky::<10>(2)
+}
+#[kani::proof]
+#[kani::unwind(34)]
+#[kani::stub(std::str::from_utf8, from_utf8_model)]
+fn t8_sticky_root_reencode() {
+    t8_sticky::<4>(1)
+}
+
+fn t8_any<const N: usize>(tag: u8) {
+    let buf: [u8; N] = kani::any();
+    let mut full = [0u8; 16];
+    full[0] = tag;
+    let mut i = 0;
+    while i < N {
+        full[i + 1] = buf[i];
+        i += 1;
+    }
+    let mut c = Cursor::new(&full[..N + 1]);
+    let r = Any::decode(&mut c);
+    if let Ok(a) = &r {
+        let mut rec: RecorderN<24> = RecorderN::new();
+        a.encode(&mut rec);
+        kani::cover!(true, "decoded and re-encoded");
+    }
+    std::mem::forget(r);
+    kani::cover!(true, "reach");
+}
+macro_rules! t8_any_inst {
+    ($name:ident, $tag:expr, $n:expr) => {
+        #[kani::proof]
+        #[kani::unwind(26)]
+        #[kani::stub(std::hash::RandomState::new, random_state_new)]
+        #[kani::stub(std::str::from_utf8, from_utf8_model)]
+        fn $name() {
+            t8_any::<$n>($tag)
+        }
+    };
+}
+t8_any_inst!(t8_any_f32_reencode, 124, 4);
+t8_any_inst!(t8_any_f64_reencode, 123, 8);
+t8_any_inst!(t8_any_bigint_reencode, 122, 8);
+
+/// Blocks: decode (info byte concrete, in-bounds reader stubs as in T4) then `Block::encode`.
+fn t8_block<const N: usize>(info: u8) {
+    let buf: [u8; N] = kani::any();
+    let mut full = [0u8; 16];
+    full[0] = info;
+    let mut i = 0;
+    while i < N {
+        full[i + 1] = buf[i];
+        i += 1;
+    }
+    let id = any_id();
+    let mut d = DecoderV1::from(&full[..N + 1]);
+    let r = hook::decode_block(id, &mut d);
+    match r {
+        Ok(Some(b)) => {
+            let mut rec: RecorderN<40> = RecorderN::new();
+            b.encode(&mut rec);
+            kani::cover!(true, "decoded and re-encoded");
+            std::mem::forget(b);
+        }
+        Ok(None) => {}
+        Err(e) => std::mem::forget(e),
+    }
+    kani::cover!(true, "reach");
+}
+macro_rules! t8_block_inst {
+    ($name:ident, $info:expr, $n:expr) => {
+        #[kani::proof]
+        #[kani::unwind(42)]
+        #[kani::stub(std::hash::RandomState::new, random_state_new)]
+        #[kani::stub(std::intrinsics::catch_unwind, catch_unwind_stub)]
+        #[kani::stub(std::str::from_utf8, from_utf8_model)]
+        #[kani::stub(<yrs::encoding::read::Cursor as yrs::encoding::read::Read>::read_u8, cursor_read_u8_inb)]
+        #[kani::stub(<yrs::encoding::read::Cursor as yrs::encoding::read::Read>::read_exact, cursor_read_exact_inb)]
+        fn $name() {
+            t8_block::<$n>($info)
+        }
+    };
+}
+t8_block_inst!(t8_block_gc_reencode, 0, 5);
+t8_block_inst!(t8_block_skip_reencode, 10, 5);
